@@ -449,8 +449,14 @@ impl<'a> Hist<'a> {
         let scratch_name = format!("{}~scratch", name);
         let base = self.w.unsealed.get(name).unwrap().clone();
         self.w.unsealed.insert(scratch_name.clone(), base);
+        // clusters of same-kind pool requests against several pools in one block (settlement processes pools in
+        // key order and requests in hash order: interleavings matter)
+        let cluster = em.pool_ops >= 30 && r.chance(1, 3);
+        let n = if cluster { 3 + r.below(4) } else { n };
+        let cluster_em = Emphasis { mutate: 0, pool_ops: 1000, stake_ops: 0, mint_ops: 0, batches: 0, blocks: 0, chain_ops: false };
         for _ in 0..n {
-            if let Some((tx, label)) = self.gen_tx(r, &scratch_name, em) {
+            let em_here = if cluster { &cluster_em } else { em };
+            if let Some((tx, label)) = self.gen_tx(r, &scratch_name, em_here) {
                 let mut sc = self.w.unsealed.get(&scratch_name).unwrap().clone();
                 self.w.names.reg_tx(&tx);
                 if silent(|| sc.apply_tx(&tx)).map(|r| r.is_ok()).unwrap_or(false) {
